@@ -30,6 +30,30 @@ def register(reg):
               "CNTW(m, a, k, 0) + CNTW(m, a, k, 1) + CNTW(m, a, k, 2) == k - ite(0 <= a and a < k, 1, 0)",
               props=["C13"], induction="k", base="0")
 
+    # ---- conservation: the scores of all elements add up to n(n-1)/2 (each pair distributes exactly one point)
+    reg.spec("def win(m, a, b):\n    return 0.0 if a == b else ite(outcome(m, a, b) == 0, 1.0, ite(outcome(m, a, b) == 1, 0.5, 0.0))",
+             dict(m=Arr(Real, 3), a=Int, b=Int), Real)
+    reg.spec("def COL(m, k, j):\n    return 0.0 if j <= 0 else COL(m, k, j - 1) + win(m, j - 1, k) + win(m, k, j - 1)",
+             dict(m=Arr(Real, 3), k=Int, j=Int), Real)          # points exchanged between k and the elements < j
+    reg.spec("def AGAINST(m, k, j):\n    return 0.0 if j <= 0 else AGAINST(m, k, j - 1) + win(m, j - 1, k)",
+             dict(m=Arr(Real, 3), k=Int, j=Int), Real)          # points earned against k by the elements < j
+    reg.spec("def TSUM(m, k, j):\n    return 0.0 if j <= 0 else TSUM(m, k, j - 1) + SCO(m, j - 1, k)",
+             dict(m=Arr(Real, 3), k=Int, j=Int), Real)          # sum over a < j of the score of a among the first k
+    MIR = {"mirror": "forall(lambda a, b: m[a][b][0] == m[b][a][1], 0, n_, 0, n_)"}
+    L3 = dict(m=Arr(Real, 3), k=Int, j=Int, n_=Int)
+    reg.lemma("cop_pair_point", L3, "COL(m, k, j) == j", props=["C13"], induction="j", base="0",
+              requires=dict(MIR, k="0 <= k and k < n_ and j <= k"))
+    reg.lemma("cop_sco_is_for", L3, "SCO(m, k, j) == COL(m, k, j) - AGAINST(m, k, j)", props=["C13"], induction="j", base="0",
+              requires={"j": "j <= k"})
+    reg.lemma("cop_tsum_step", L3, "TSUM(m, k + 1, j) == TSUM(m, k, j) + AGAINST(m, k, j)", props=["C13"], induction="j",
+              base="0", requires={"k": "0 <= k and j <= k"})
+    reg.lemma("cop_total", dict(m=Arr(Real, 3), k=Int, n_=Int), "2 * TSUM(m, k, k) == k * (k - 1)", props=["C13"],
+              induction="k", base="0", requires=dict(MIR, k="k <= n_"),
+              hints=["cop_tsum_step(m, k, k, n_)", "cop_pair_point(m, k, k, n_)", "cop_sco_is_for(m, k, k, n_)"])
+    reg.spec("def ASUM(s, j):\n    return 0.0 if j <= 0 else ASUM(s, j - 1) + s[j - 1]", dict(s=Arr(Real), j=Int), Real)
+    reg.lemma("cop_asum", dict(s=Arr(Real), m=Arr(Real, 3), j=Int, n_=Int), "ASUM(s, j) == TSUM(m, n_, j)", props=["C13"],
+              induction="j", base="0", requires={"pt": "forall(lambda a: s[a] == SCO(m, a, n_), 0, j)"})
+
     M = "pairwise_cost_matrix"
     STAGE = "ite(a < el1, %s, ite(a == el1, %s, ite(a < el2, %s, %s)))"
 
@@ -53,7 +77,9 @@ def register(reg):
             "equalities": "forall(lambda a: result[1][a][1] == CNTW(" + M + ", a, n_, 1), 0, n_)",
             "defeats": "forall(lambda a: result[1][a][2] == CNTW(" + M + ", a, n_, 2), 0, n_)",
             "counts_sum": "forall(lambda a: result[1][a][0] + result[1][a][1] + result[1][a][2] == n_ - 1, 0, n_)",
+            "scores_total": "2 * ASUM(result[0], n_) == n_ * (n_ - 1)",
         },
+        exit_hints={1: ["cop_asum(scores, pairwise_cost_matrix, n_, n_)", "cop_total(pairwise_cost_matrix, n_, n_)"]},
         loops={
             1: dict(inv={
                 "n": "nb_elements == n_",
